@@ -137,6 +137,31 @@ Theorem C07_immovable_gone_on_complete : forall fx c k b s,
 Proof. exact (Proof.LruStore.md_complete Disk). Qed.
 Print Assumptions C07_immovable_gone_on_complete.
 
+(* ---- Clean (any legal map-iteration order): complete, not banned blobs go first (in LRU order, as
+   for Create); any other blob is deleted only once no evictable blob is left; a banned blob only
+   if respectEvictionBan is false and every blob that is not banned has been deleted *)
+Theorem C07_clean_order : forall cap ops pct respect order, cap < two64 ->
+  ((pct <? 0) || (100 <=? pct))%Z = false ->
+  let c := reach_c cap ops in
+  snd (cstep Disk true c (Clean pct respect order)) <> OBadOracle ->
+  let c' := fst (cstep Disk true c (Clean pct respect order)) in
+  forall k b, assoc k (k_blobs (c_core c)) = Some b -> assoc k (k_blobs (c_core c')) = None ->
+    b_complete b && negb (b_banned b) = true \/
+    ((forall k2, evictableb (c_core c') k2 = false) /\
+     (b_banned b = false \/
+      (respect = false /\ forall k2 b2, assoc k2 (k_blobs (c_core c')) = Some b2 -> b_banned b2 = true))).
+Proof. exact Proof.C07.clean_order. Qed.
+Print Assumptions C07_clean_order.
+
+Example C07_nonvacuous_clean :
+  let c := reach_c 100 [CreateW 0 20 []; CreateW 1 20 []; CreateW 2 20 []; CreateW 3 20 []; MarkComplete 0; MarkComplete 1; Ban 1 SAny; Ban 3 SAny] in
+  map (fun ro => (snd ro, map fst (k_blobs (c_core (fst (cstep Disk true c (Clean 30 (fst ro) [2; 3; 1; 0])))))))
+      [(true, OClean 40 None); (false, OClean 20 None)] =
+  [(OClean 40 None, [1; 3]); (OClean 20 None, [1])] /\
+  snd (cstep Disk true c (Clean 30 true [2; 3; 1; 0])) = OClean 40 None /\
+  snd (cstep Disk true c (Clean 30 false [2; 3; 1; 0])) = OClean 20 None.
+Proof. vm_compute. repeat split; reflexivity. Qed.
+
 (* ---- executable form used on observed traces *)
 Theorem C07_check_sound : forall cap ops, cap < two64 -> C07_check cap ops (C07_impl cap ops) = true.
 Proof. exact Proof.C07.check_sound. Qed.
